@@ -49,7 +49,7 @@ def correspondence(ctx):
     n, length = ctx.scale((24, 90), (150, 160))
     traces = _traces(ctx, n, length)
     ctx.traces = traces
-    checks, inv_checks = [], []
+    checks, inv_checks, proto_checks = [], [], []
     header = e2.HEADER.replace("model.GraphDump.", "model.GraphDump model.GraphInv.")
     for tr, cnt, strict in traces:
         for k, v in cnt.items():
@@ -62,7 +62,16 @@ def correspondence(ctx):
         checks.append(e2.cq_trace(tr, 3))
         ops = common.coq_list([e2.cq_op(t[0]) for t in tr if t[0][0] != "dispatch_error"])
         inv_checks.append(f"all_prefixes_ok inv_b (init_st 3) {ops}")
+        proto_checks.append(("inv_succeeded_b", f"all_prefixes_ok inv_succeeded_b (init_st 3) {ops}"))
+        proto_checks.append(("inv_running_nohash_b", f"all_prefixes_ok inv_running_nohash_b (init_st 3) {ops}"))
+        proto_checks.append(("protocol_run_b", f"protocol_run_b (init_st 3) {ops}"))
     ctx.sample({"trace_prefix": [list(map(str, t[:2])) for t in traces[0][0][:8]]})
+    fixed = [(n, tr) for n, tr in fixed_traces(ctx).items() if tr is not None]
+    fbad = common.run_cases(ctx, "e2fixed", header, [e2.cq_trace(tr, 3) for _, tr in fixed], chunk=6)
+    for b in fbad:
+        ctx.add_failure("correspondence", "E2:fixed", f"E2:fixed:{fixed[b][0]}",
+                        f"model and implementation disagree on the fixed witness trace '{fixed[b][0]}'",
+                        witness={"ops": [list(map(str, t[:3])) for t in fixed[b][1]]})
     bad = common.run_cases(ctx, "e2", header, checks, chunk=6)
     ctx.traces_validated += len(checks) - len(bad)
     for b in bad[:3]:
@@ -77,6 +86,7 @@ def correspondence(ctx):
                         f"{tr[k][0] if k is not None else ''} -> implementation {tr[k][1:3] if k is not None else ''}",
                         witness={"ops": [list(map(str, t[:2])) for t in tr[: (k or 0) + 1]],
                                  "implementation_dump": tr[k][3] if k is not None else None})
+    _proto_failures(ctx, header, proto_checks, traces)
     bad = common.run_cases(ctx, "inv", header, inv_checks, chunk=6)
     for b in bad[:3]:
         tr = traces[b][0]
@@ -85,7 +95,97 @@ def correspondence(ctx):
                         witness={"ops": [list(map(str, t[:2])) for t in tr]})
 
 
+SELF_DEFINITION = [
+    ("declare_static", ("root", ""), ("plan.py",)),
+    ("update_hashes", "CONFIRMED", (("plan.py", 1),)),
+    ("define_step", ("root", ""), "./plan.py", ("plan.py",), (), (), (), "PLAN"),
+    ("dispatch", "./plan.py"),
+    ("reset_for_rerun", "./plan.py"),
+    ("define_step", ("step", "./plan.py"), "A", (), (), (), (), "DEFAULT"),
+    ("dispatch", "A"),
+    ("reset_for_rerun", "A"),
+    ("exec_end", "./plan.py", (), "FAILED", (), False, False),
+    ("define_step", ("step", "A"), "A", (), (), (), (), "DEFAULT"),
+]
+HOLD_OUTSIDE_PROTOCOL = [
+    ("declare_static", ("root", ""), ("p",)),
+    ("update_hashes", "CONFIRMED", (("p", 1),)),
+    ("define_step", ("root", ""), "s", ("p",), (), (), (), "PLAN"),
+    ("hold", "s"),
+]
+FIXED_TRACES = {"self-definition": SELF_DEFINITION, "hold-outside-protocol": HOLD_OUTSIDE_PROTOCOL}
+
+
+async def _run_fixed(ops):
+    """Drive the real implementation through a fixed operation list (dispatch through the real
+    Scheduler.pop_next_job); returns the recorded trace or None when a dispatch deviates."""
+    impl = e2.Impl(3)
+    await impl.start()
+    try:
+        trace = []
+        booted = False
+        for op in ops:
+            if op[0] == "dispatch":
+                r = await impl.dispatch()
+                if r is None or r[0] != op[1]:
+                    return None
+                trace.append((op, "ok", r[1], await impl.dump()))
+                continue
+            outcome, detail = await impl.apply(op)
+            trace.append((op, outcome, detail, await impl.dump()))
+            if not booted and op[0] == "define_step" and op[1] == ("root", ""):
+                booted = True
+                async with impl.db:
+                    impl.db.execute("UPDATE step SET _safe = 1, _safe_ignoring_hold = 1, _check_safe = 0")
+        return trace
+    finally:
+        impl.close()
+
+
+def internal_signature(op, detail):
+    site = op[0]
+    if op[0] == "define_step" and tuple(op[1]) == ("step", op[2]):
+        site = "define_step:self-definition"
+    return f"oracle:internal-error:{site}:{detail.split(':')[0]}"
+
+
+def fixed_traces(ctx):
+    """The two Coq witnesses replayed on the real implementation: the recorded trace must agree with
+    the model (correspondence), and an internal error of the implementation is reported (oracle)."""
+    if getattr(ctx, "fixed", None) is None:
+        ctx.fixed = {name: asyncio.run(_run_fixed(ops)) for name, ops in FIXED_TRACES.items()}
+    return ctx.fixed
+
+
+def _proto_failures(ctx, header, proto_checks, traces):
+    """I4 (a SUCCEEDED step has all its outputs built), RUNNING implies no stored hash, and the hold
+    protocol, evaluated by the model on every prefix of every executed trace."""
+    bad = common.run_cases(ctx, "proto", header, [c for _, c in proto_checks], chunk=18)
+    seen = set()
+    for b in bad:
+        name = proto_checks[b][0]
+        if name in seen:
+            continue
+        seen.add(name)
+        tr = traces[b // 3][0]
+        ctx.add_failure("correspondence", f"E2:{name}", f"E2:{name}-false-on-reachable-state",
+                        f"{name} is false on a prefix of a trace that the implementation executed",
+                        witness={"ops": [list(map(str, t[:2])) for t in tr]})
+
+
 def oracle(ctx):
+    for name, tr in fixed_traces(ctx).items():
+        if tr is None:
+            ctx.add_failure("oracle", f"fixed:{name}", f"oracle:fixed-trace-not-replayable:{name}",
+                            "the fixed witness trace could not be replayed (dispatch order changed)", witness=None)
+            continue
+        for j, (op, oc, detail, d) in enumerate(tr):
+            ctx.case(("fixed", name, j), nontrivial=True)
+            if oc == "internal":
+                ctx.add_failure("oracle", "internal-error", internal_signature(op, detail),
+                                f"fixed witness '{name}': transaction {j} raised an internal error: {op} -> {detail}",
+                                witness={"ops": [list(map(str, t[:2])) for t in tr[: j + 1]]})
+                break
     for i, (tr, cnt, strict) in enumerate(getattr(ctx, "traces", [])):
         if strict:
             ctx.add_failure("oracle", "strict-consistency-check", "oracle:consistency-check:" + strict.split(":")[0],
@@ -93,7 +193,7 @@ def oracle(ctx):
                             witness={"ops": [list(map(str, t[:2])) for t in tr]})
         for j, (op, oc, detail, d) in enumerate(tr):
             if oc == "internal":
-                ctx.add_failure("oracle", "internal-error", f"oracle:internal-error:{op[0]}:{detail.split(':')[0]}",
+                ctx.add_failure("oracle", "internal-error", internal_signature(op, detail),
                                 f"transaction {j} of trace {i} raised an internal error: {op} -> {detail}",
                                 witness={"ops": [list(map(str, t[:2])) for t in tr[: j + 1]]})
                 break
